@@ -12,29 +12,29 @@ SEQ_NOTE = ("Trusted: the reference model (DESIGN.md Appendix A, every 'may' lis
             "state merging assumes shift-invariance of timestamps/CAS (thorough tier re-runs with exact fingerprints).")
 
 CHECKS = {
- "C01": dict(engine="seq+sched", cat="model_checking", ref="§4 C01, §2.3",
+ "C01": dict(engine="seq+sched+net", cat="model_checking", ref="§4 C01, §2.3",
    technique="explicit-state BFS over command histories executing the real decode/handle/encode path, reference model in lock-step",
-   text="Every command history up to the depth bound over a 2-key alphabet (empty/binary/limit-sized values, flag extremes, TTLs, clock steps, flush, CAS stores that match and that are rejected, both eviction policies) is executed on the real code; after every command the responses and the full store dump are compared with the reference model (value, flags, CAS, key isolation, nothing lost). Second part (E1): one client's store-then-get on its key against every schedule of another client working on a different key (same and other shard) or reading the same key, all initial states, checked by linearizability. Third part: opaque-independence differential - every history on two stores driven with different opaques, responses (modulo the echoed opaque) and stores equal after every command. Every sequential check also explores the quick alphabets of the other eight sequential properties under its own clauses (cross-alphabet pass).",
+   text="Every command history up to the depth bound over a 2-key alphabet (empty/binary/limit-sized values, flag extremes, TTLs, clock steps, flush, CAS stores that match and that are rejected, both eviction policies) is executed on the real code; after every command the responses and the full store dump are compared with the reference model (value, flags, CAS, key isolation, nothing lost). Second part (E1): one client's store-then-get on its key against every schedule of another client working on a different key (same and other shard) or reading the same key, all initial states, checked by linearizability. Third part: opaque-independence differential - every history on two stores driven with different opaques, responses (modulo the echoed opaque) and stores equal after every command. Every sequential check also explores the quick alphabets of the other sequential properties (incl. C16's long repetitions) under its own clauses (cross-alphabet pass). Per configuration a history-exhaustive second pass executes every history up to the depth that |alphabet|^d <= 1.5 M (thorough 40 M) allows without state matching (state kept outside the store cannot hide behind equal dumps). Fourth part (E4): large stored values (0.2-1 MB) read back with get/getk/getq through a full socket, with and without the reader staying away beyond the idle timeout: value and flags byte for byte.",
    note=SEQ_NOTE),
  "C02": dict(engine="seq", cat="model_checking", ref="§4 C02, §2.3",
    technique="explicit-state BFS over CAS histories on the real code with a token-uniqueness/iff oracle",
-   text="All histories up to the bound of stores/RMW/deletes with CAS in {0,current,stale1,stale2,current+1,MAX,arbitrary} on 2 keys incl. expiry and re-creation; oracle: succeeds iff CAS matches, failure = 0x02 and bit-identical entry, new token non-zero, never carried before in the lifetime, and equal to what the store then holds. A second configuration runs CAS-carrying stores that also carry a TTL on a server whose clock is at 100 s.",
+   text="All histories up to the bound of stores/RMW/deletes with CAS in {0,current,stale1,stale2,current+1,MAX,arbitrary} on 2 keys incl. expiry and re-creation; oracle: succeeds iff CAS matches, failure = 0x02 and bit-identical entry, new token non-zero, never carried before in the lifetime, and equal to what the store then holds. A second configuration runs CAS-carrying stores that also carry a TTL on a server whose clock is at 100 s. A third starts from non-initial states: 7..257 earlier stores (every power of two and its neighbours, 10, 100) on the guarded key and on another one, every step of the walk judged, then BFS from its end. Per configuration a history-exhaustive second pass executes every history up to the depth that |alphabet|^d <= 1.5 M (thorough 40 M) allows without state matching (state kept outside the store cannot hide behind equal dumps).",
    note=SEQ_NOTE),
  "C05": dict(engine="seq+sched", cat="model_checking", ref="§4 C05, §2.3",
    technique="explicit-state BFS over TTL/clock/flush histories on the real code under an injected Timer, must-hit/must-miss window oracle",
-   text="All histories up to the bound over TTL {0,1,2,3,30d}, relative clock steps incl. exactly-to-expiry and one-second-before, delayed and immediate flush, every command kind on live/just-expired/long-expired items; oracle: must-hit before s+TTL, must-miss from last-mutation+TTL, expired = absent for every command, never visible again, nothing prolongs (also checked on the dump after every command). Second part (E1): every presence-dependent command against concurrent get(s) on an expired, not yet collected item, every schedule, linearizability (expired = absent).",
+   text="All histories up to the bound over TTL {0,1,2,3,30d}, relative clock steps incl. exactly-to-expiry and one-second-before, delayed and immediate flush, every command kind on live/just-expired/long-expired items; oracle: must-hit before s+TTL, must-miss from last-mutation+TTL, expired = absent for every command, never visible again, nothing prolongs (also checked on the dump after every command). Second part (E1): every presence-dependent command against concurrent get(s) on an expired, not yet collected item, every schedule, linearizability (expired = absent). Per configuration a history-exhaustive second pass executes every history up to the depth that |alphabet|^d <= 1.5 M (thorough 40 M) allows without state matching (state kept outside the store cannot hide behind equal dumps).",
    note=SEQ_NOTE),
  "C06": dict(engine="seq", cat="model_checking", ref="§4 C06, §2.3",
    technique="explicit-state BFS over add/replace/append/prepend histories on the real code against the reference model",
-   text="All histories up to the bound of add/replace/append/prepend with empty, binary and limit-reaching operands on absent/present/expired/deleted/flushed keys; oracle: status per the property, old+suffix / prefix+old, flags kept, rejected command leaves the entry bit-identical. Concurrent part (E1): replace / add / append / prepend against a concurrent set or get of the same key, every schedule up to the bound, linearizability (only pairs that are linearizable on the unchanged tree; two read-modify-write commands racing are C04's recorded findings).",
+   text="All histories up to the bound of add/replace/append/prepend with empty, binary and limit-reaching operands on absent/present/expired/deleted/flushed keys; oracle: status per the property, old+suffix / prefix+old, flags kept, rejected command leaves the entry bit-identical. Concurrent part (E1): replace / add / append / prepend against a concurrent set or get of the same key, every schedule up to the bound, linearizability (only pairs that are linearizable on the unchanged tree; two read-modify-write commands racing are C04's recorded findings). Per configuration a history-exhaustive second pass executes every history up to the depth that |alphabet|^d <= 1.5 M (thorough 40 M) allows without state matching (state kept outside the store cannot hide behind equal dumps).",
    note=SEQ_NOTE),
  "C07": dict(engine="seq", cat="model_checking", ref="§4 C07, §2.3",
    technique="explicit-state BFS over counter histories on the real code with a u64 arithmetic oracle",
-   text="All histories up to the bound over 13 stored texts (u64 extremes, leading zeros, signs, blanks, empty, non-UTF-8) x delta/initial/expiration/CAS extremes; oracle: (v+d) mod 2^64, max(v-d,0), 8-byte BE response, stored decimal text, flags kept, creation/0xffffffff rule, non-numeric = 0x06 and unchanged; zero-padded texts of 20, 21 and 40 characters; quiet incr/decr (errors still answered). Second part: the opaque-independence differential (two stores, different opaques, equal responses modulo the opaque and equal stores). For a value that is certainly no decimal u64 the answer is 'non-numeric value' whatever CAS the request carries.",
+   text="All histories up to the bound over 13 stored texts (u64 extremes, leading zeros, signs, blanks, empty, non-UTF-8) x delta/initial/expiration/CAS extremes; oracle: (v+d) mod 2^64, max(v-d,0), 8-byte BE response, stored decimal text, flags kept, creation/0xffffffff rule, non-numeric = 0x06 and unchanged; zero-padded texts of 20, 21 and 40 characters; quiet incr/decr (errors still answered). Second part: the opaque-independence differential (two stores, different opaques, equal responses modulo the opaque and equal stores). For a value that is certainly no decimal u64 the answer is 'non-numeric value' whatever CAS the request carries. Per configuration a history-exhaustive second pass executes every history up to the depth that |alphabet|^d <= 1.5 M (thorough 40 M) allows without state matching (state kept outside the store cannot hide behind equal dumps).",
    note=SEQ_NOTE),
  "C08": dict(engine="seq+sched", cat="model_checking", ref="§4 C08, §2.3",
    technique="explicit-state BFS over delete/flush histories on 3 keys on the real code against the exact-removal model",
-   text="All histories up to the bound of set/delete(cas 0, matching, stale)/flush(0, n)/clock/re-store on 3 keys; oracle: delete removes exactly the addressed key, 0x01 absent, 0x02 and unchanged on mismatch, immediate flush empties the store, delayed flush deadline holds, later stores (also CAS re-stores while a delayed flush is pending) unaffected. Second part (E1): delete with cas 0 / matching / stale against every schedule of a concurrent set, cas-set, get, flush or a command on another key of the same shard, all initial states, linearizability.",
+   text="All histories up to the bound of set/delete(cas 0, matching, stale)/flush(0, n)/clock/re-store on 3 keys; oracle: delete removes exactly the addressed key, 0x01 absent, 0x02 and unchanged on mismatch, immediate flush empties the store, delayed flush deadline holds, later stores (also CAS re-stores while a delayed flush is pending) unaffected. Second part (E1): delete with cas 0 / matching / stale against every schedule of a concurrent set, cas-set, get, flush or a command on another key of the same shard, all initial states, linearizability. Per configuration a history-exhaustive second pass executes every history up to the depth that |alphabet|^d <= 1.5 M (thorough 40 M) allows without state matching (state kept outside the store cannot hide behind equal dumps).",
    note=SEQ_NOTE),
 }
 
@@ -49,19 +49,19 @@ CHECKS.update({
    note=SCHED_NOTE),
  "C04": dict(engine="sched", cat="model_checking", ref="§4 C04, §2.2",
    technique="stateless DFS over all thread schedules of the real store under a controlled scheduler, brute-force linearizability oracle",
-   text="Same engine as C03 with add/replace/append/prepend/incr/decr added (values chosen so lost updates are visible). The unchanged tree violates this property for 41 (state, command pair) combinations because these commands are get-then-set; they are listed as known findings, every other pair/triple must be linearizable. The 2x1 family is run both on the bare store and behind the random eviction policy (unreachable limit).",
+   text="Same engine as C03 with add/replace/append/prepend/incr/decr added (values chosen so lost updates are visible). The unchanged tree violates this property for 41 (state, command pair) combinations because these commands are get-then-set; they are listed as known findings, every other pair/triple must be linearizable. The 2x1 family is run both on the bare store and behind the random eviction policy (unreachable limit). Family rmw-with-cas: CAS-guarded incr/decr/append/prepend against each other, against plain writers, against delete+re-store, and two or three clients sending byte-identical guarded commands (only one may win).",
    note=SCHED_NOTE),
  "C14": dict(engine="seq+sched", cat="model_checking", ref="§4 C14, §2.2, §2.3",
    technique="explicit-state BFS over histories with every eviction victim enumerated (RNG seam) + stateless DFS over all schedules of concurrent stores, bound checked on the dump",
-   text="Sequential: all histories up to the bound under RandomPolicy with limits {10,34,60,100,(200)} where every victim index is a branch; after every command sum(record sizes) <= L + last written record and the written record is present. Concurrent: 2-3 storing clients (also 2x2), all schedules up to the preemption bound and all victims: at rest sum <= L + sizes of the program's stores, then sequential follow-up stores must keep the strict bound L + one record - with memory pressure during the race (6 racing pairs are listed known findings) and without (limit 400, then fill: holds); deadlock/step-horizon detection gives termination. The alphabet includes stores carrying a CAS (matching, and on an absent key); an acknowledged store whose record is missing at once is own-record-evicted.",
+   text="Sequential: all histories up to the bound under RandomPolicy with limits {10,34,60,100,(200)} where every victim index is a branch; after every command sum(record sizes) <= L + last written record and the written record is present. Concurrent: 2-3 storing clients (also 2x2), all schedules up to the preemption bound and all victims: at rest sum <= L + sizes of the program's stores, then sequential follow-up stores must keep the strict bound L + one record - with memory pressure during the race (6 racing pairs are listed known findings) and without (limit 400, then fill: holds); deadlock/step-horizon detection gives termination. The alphabet includes stores carrying a CAS (matching, and on an absent key); an acknowledged store whose record is missing at once is own-record-evicted. Per configuration a history-exhaustive second pass executes every history up to the depth that |alphabet|^d <= 1.5 M (thorough 40 M) allows without state matching (state kept outside the store cannot hide behind equal dumps).",
    note=SEQ_NOTE + " " + SCHED_NOTE),
  "C15": dict(engine="seq+sched", cat="model_checking", ref="§4 C15, §2.3",
    technique="explicit-state BFS over histories on the real code under RandomPolicy, accounting counter (hook) compared with the dump after every command",
-   text="All histories up to the bound of every command kind on 3 keys under a generous limit: (accounted usage - sum of stored record sizes) must not change in any command, and no live item may disappear while the stored records fit under the limit (behavioural form, limit 130). The unchanged tree drifts at 5 call sites; each (unaccounted record, command) is a listed known finding; drift of any other amount outside the eviction loop is not listed. Second part (E1): programs whose commands account exactly when run alone (deletes, stores under fresh keys, reads): the drift must be unchanged across the concurrent phase under every schedule. Concurrent families also start from an expired, uncollected item met by two or three clients; the drift clause is signed (over-count: the recorded lazy-expiry drift; under-count: never listed). A third sequential configuration executes a small alphabet on two OS threads of the runner (one command at a time, histories enumerated without state merging): thread-affine accounting; a live item lost while even the counter is below the limit is never a recorded finding.",
+   text="All histories up to the bound of every command kind on 3 keys under a generous limit: (accounted usage - sum of stored record sizes) must not change in any command, and no live item may disappear while the stored records fit under the limit (behavioural form, limit 130). The unchanged tree drifts at 5 call sites; each (unaccounted record, command) is a listed known finding; drift of any other amount outside the eviction loop is not listed. Second part (E1): programs whose commands account exactly when run alone (deletes, stores under fresh keys, reads): the drift must be unchanged across the concurrent phase under every schedule. Concurrent families also start from an expired, uncollected item met by two or three clients; the drift clause is signed (over-count: the recorded lazy-expiry drift; under-count: never listed). A third sequential configuration executes a small alphabet on two OS threads of the runner (one command at a time, histories enumerated without state merging): thread-affine accounting; a live item lost while even the counter is below the limit is never a recorded finding. The arithmetic of a command that ran the eviction loop is verified exactly (attempted record added, every victim subtracted once, or restart on an empty store): anything else is usage-drift@eviction-loop-unexplained, never recorded; configuration phantom-bytes-L=100 lets accounted-but-not-stored bytes exceed the limit. Per configuration a history-exhaustive second pass executes every history up to the depth that |alphabet|^d <= 1.5 M (thorough 40 M) allows without state matching (state kept outside the store cannot hide behind equal dumps).",
    note=SEQ_NOTE),
- "C16": dict(engine="sched", cat="model_checking", ref="§4 C16, §2.2",
+ "C16": dict(engine="sched+seq", cat="model_checking", ref="§4 C16, §2.2",
    technique="stateless DFS over all thread schedules of the real store under a controlled scheduler with deadlock (no enabled task) and step-horizon (livelock) detection",
-   text="Programs of 1-3 clients over {get,set,cas-set,delete,add,append,incr,flush,other-key ops, evicting stores} with keys on the same and on different shards (2 shards), policies none and random with a tight limit (eviction sweeps, all victims), initial states absent/present/expired: every schedule up to the bound must run to completion; a blocked system or >20000 steps is a violation. Family refused-then-again: a refused command (stale CAS) followed by the same kind of command on one client and across two.",
+   text="Programs of 1-3 clients over {get,set,cas-set,delete,add,append,incr,flush,other-key ops, evicting stores} with keys on the same and on different shards (2 shards), policies none and random with a tight limit (eviction sweeps, all victims), initial states absent/present/expired: every schedule up to the bound must run to completion; a blocked system or >20000 steps is a violation. Family refused-then-again: a refused command (stale CAS) followed by the same kind of command on one client and across two. Sequential part (E2): one client repeating each command 300 (thorough 3000) times on an absent, a present and an expired-uncollected key, and set/expire/read cycles; every step must return (30 s watchdog).",
    note=SCHED_NOTE),
 })
 
@@ -76,7 +76,7 @@ CHECKS.update({
    note=NET_NOTE),
  "C12": dict(engine="net", cat="model_checking", ref="§4 C12, §2.5",
    technique="exhaustive enumeration of pipelined request streams over all opcodes (depth 2, thorough 3, quit/quitq at every position) on real loopback TCP, validated by the sequential specification",
-   text="Every stream of 1-2 (thorough 3) requests over a 48-element alphabet (incl. oversized set/setq, also delivered in three pieces cut inside the body) (every opcode 0x00-0x24 with hit/miss and success/error operands, loud/quiet, unimplemented, undefined) plus every stream with quit/quitq in the middle, sent in one segment and byte-at-a-time; responses are matched by opaque in order: exactly one per loud known opcode, quiet only on error/hit, quit answered then EOF, quitq EOF without answer, nothing after either executed (final store compared), not even on the next connection (a fresh connection after every stream: one noop, exactly one answer). Third delivery mode: one segment followed at once by the client FIN (everything sent is still executed and answered). Late-reader scenarios: pipelined gets of 64-256 KiB then quit or the client's FIN, first read after the server ran: every response whole, then a clean end of stream (no reset).",
+   text="Every stream of 1-2 (thorough 3) requests over a 48-element alphabet (incl. oversized set/setq, also delivered in three pieces cut inside the body) (every opcode 0x00-0x24 with hit/miss and success/error operands, loud/quiet, unimplemented, undefined) plus every stream with quit/quitq in the middle, sent in one segment and byte-at-a-time; responses are matched by opaque in order: exactly one per loud known opcode, quiet only on error/hit, quit answered then EOF, quitq EOF without answer, nothing after either executed (final store compared), not even on the next connection (a fresh connection after every stream: one noop, exactly one answer). Third delivery mode: one segment followed at once by the client FIN (everything sent is still executed and answered). Late-reader scenarios: pipelined gets of 64-256 KiB then quit or the client's FIN, first read after the server ran: every response whole, then a clean end of stream (no reset). Reset mode: every stream [<a>] quit|quitq <b> on an established connection that the client resets before the server runs (the server reads every byte, its writes and shutdown fail): the store ends as before the stream or as after <a>.",
    note=NET_NOTE),
  "C13": dict(engine="net", cat="model_checking", ref="§4 C13, §2.5",
    technique="exhaustive grid limit x body length x opcode x pipeline position x bytes-already-buffered x buffer-pregrown on real loopback TCP against an in-process reference",
@@ -93,13 +93,13 @@ CHECKS.update({
 })
 
 CHECKS.update({
- "C10": dict(engine="grid+net", cat="exploration", ref="§4 C10, §2.4",
+ "C10": dict(engine="grid+net+seq", cat="exploration", ref="§4 C10, §2.4",
    technique="exhaustive boundary-grid enumeration of header fields x bytes available x store state through the real decode/handle/encode path under catch_unwind (overflow checks on), a socket sub-grid with virtual-time silence, and explicit-state BFS over the command histories of every sequential alphabet (no panic, every command returns)",
-   text="About 0.5 M distinct headers (opcode 0..255 x key/extras/body lengths around every limit x bytes available x CAS extremes x stored value x incr/decr operand extremes, wrong magic/data type): no panic, the decoder makes progress or waits or fails, a header invalid by the property's list is never executed (no success response, store unchanged), buffer capacity stays below limit+24+4096; 19 k of them replayed over real TCP with 61 s of virtual silence: no task panic, connection closed, server still serving; oversized bodies delivered in three pieces with pipelined followers (no panic in the discard loop); oversized bodies streamed in 512-byte reads (buffered bytes stay below limit+24+4096). Second part: every command history of the nine sequential alphabets up to their quick depths (stateful: expired items, CAS, eviction, clock steps) on the real path - no panic, no decode error on a valid request, every command returns (30 s watchdog). Exhaustive over the grid and the histories, not over all byte strings (random bytes are sampling and outside this technique). Third part: every well-formed corpus frame on its own, delivered to the decoder in two pieces at every cut, must be taken exactly as when delivered whole.",
+   text="About 0.5 M distinct headers (opcode 0..255 x key/extras/body lengths around every limit x bytes available x CAS extremes x stored value x incr/decr operand extremes, wrong magic/data type): no panic, the decoder makes progress or waits or fails, a header invalid by the property's list is never executed (no success response, store unchanged), buffer capacity stays below limit+24+4096; 19 k of them replayed over real TCP with 61 s of virtual silence: no task panic, connection closed, server still serving; oversized bodies delivered in three pieces with pipelined followers (no panic in the discard loop); oversized bodies streamed in 512-byte reads (buffered bytes stay below limit+24+4096). Second part: every command history of the sequential alphabets (nine properties' plus C16's long repetitions) up to their quick depths (stateful: expired items, CAS, eviction, clock steps) on the real path - no panic, no decode error on a valid request, every command returns (30 s watchdog). Exhaustive over the grid and the histories, not over all byte strings (random bytes are sampling and outside this technique). Third part: every well-formed corpus frame on its own, delivered to the decoder in two pieces at every cut, must be taken exactly as when delivered whole. The check runs in a supervised child process: a death by signal after a panic raised in memcrs/src (abort-on-panic guards, panic while panicking) is reported as VIOLATION with the sequential history as replay file.",
    note="Trusted: the harness profile really has overflow-checks on (profile.dev in mc/Cargo.toml); panic capture via a process-wide hook. " + NET_NOTE),
- "C11": dict(engine="seq", cat="model_checking", ref="§4 C11, §2.3",
+ "C11": dict(engine="seq+net", cat="model_checking", ref="§4 C11, §2.3",
    technique="explicit-state BFS over histories of every opcode x every outcome on the real code; every encoded response re-parsed by an independent parser",
-   text="Socket part: pipelined getk of 0.07-1 MB items, read only after the server blocked on the full socket: every frame whole and in order. Sequential part: 62-command alphabet (every opcode, loud and quiet, hit/miss/exists/not-found/too-large/non-numeric, 250-byte and binary keys, opaques 0/0xabad1dea/0xffffffff/0x80000001), all histories to the bound: every response frame has magic 0x81, opcode and opaque echoed, data type 0, status in the table, body length = extras+key+value, 4 extras on hits, key only for getk, 8 bytes for counters, text on errors; exactly one frame per loud request. The same rules are applied to every response of the C12 socket runs. Requests carry vbucket ids 0 / 7 / 0xffff by command index (a reserved field: nothing may depend on it). Third part: correlation across connections - every stream <request> <quit|quitq|undefined opcode> <request> leaves bytes unconsumed when the server closes; a fresh connection's noop must then receive exactly its own answer. The correlation part also sends <unimplemented or oversized request> <request> (<request>) on one connection: every later request is answered with its own opcode and opaque.",
+   text="Socket part: pipelined getk of 0.07-1 MB items, read only after the server blocked on the full socket: every frame whole and in order. Sequential part: 62-command alphabet (every opcode, loud and quiet, hit/miss/exists/not-found/too-large/non-numeric, 250-byte and binary keys, opaques 0/0xabad1dea/0xffffffff/0x80000001), all histories to the bound: every response frame has magic 0x81, opcode and opaque echoed, data type 0, status in the table, body length = extras+key+value, 4 extras on hits, key only for getk, 8 bytes for counters, text on errors; exactly one frame per loud request. The same rules are applied to every response of the C12 socket runs. Requests carry vbucket ids 0 / 7 / 0xffff by command index (a reserved field: nothing may depend on it). Third part: correlation across connections - every stream <request> <quit|quitq|undefined opcode> <request> leaves bytes unconsumed when the server closes; a fresh connection's noop must then receive exactly its own answer. The correlation part also sends <unimplemented or oversized request> <request> (<request>) on one connection: every later request is answered with its own opcode and opaque. The back-pressure scenarios also run with the reader staying away for the idle timeout + 1 s of virtual time while the server is blocked mid-response. Per configuration a history-exhaustive second pass executes every history up to the depth that |alphabet|^d <= 1.5 M (thorough 40 M) allows without state matching (state kept outside the store cannot hide behind equal dumps).",
    note=SEQ_NOTE),
  "C19": dict(engine="seq-pair", cat="model_checking", ref="§4 C19, §2.3",
    technique="explicit-state BFS over pairs of real systems (loud run, toggled run); the loud/quiet toggle is part of the alphabet so every subset of positions is covered; every toggled history up to depth 2 (thorough 3) is also sent as pipelined writes to a real TCP server and compared with the in-process run",
@@ -107,7 +107,7 @@ CHECKS.update({
    note=SEQ_NOTE),
  "C20": dict(engine="cfg", cat="exploration", ref="§4 C20, §2.6",
    technique="exhaustive configuration-grid enumeration: one real memcrsd process (built from /repo, hooks off) per CLI configuration, identical programs, transcript comparison",
-   text="Grid runtime-type x threads {1,2,8} x eviction x port x max-item-size x connection-limit (quick: covering subset of 8, thorough: all 96): byte-identical transcripts of the C01/C07 spanning-tree programs across configurations and agreement with the in-process run, item-size and connection limits enforced as configured (8 x limit simultaneous connections), a 1500-item population read back and flushed, one real-time TTL probe per configuration (ttl 4: hit at 0 s and 2.3 s, miss at 5.6 s). Second part: in-process differential BFS, eviction policy none vs random with an unreachable limit, every history of the C01 alphabet (incl. rejected CAS stores) to depth 5-6: byte-identical responses and equal stores. Connections ending in quit, quitq and a plain close precede the connection-limit probe. The in-process differential runs over the first alphabets of C01, C02, C06, C07 and C08.",
+   text="Grid runtime-type x threads {1,2,8} x eviction x port x max-item-size x connection-limit (quick: covering subset of 8, thorough: all 96): byte-identical transcripts of the C01/C07 spanning-tree programs across configurations and agreement with the in-process run, item-size and connection limits enforced as configured (8 x limit simultaneous connections), a 1500-item population read back and flushed, one real-time TTL probe per configuration (ttl 4: hit at 0 s and 2.3 s, miss at 5.6 s). Second part: in-process differential BFS, eviction policy none vs random with an unreachable limit, every history of the C01 alphabet (incl. rejected CAS stores) to depth 5-6: byte-identical responses and equal stores. Connections ending in quit, quitq and a plain close precede the connection-limit probe. The in-process differential runs over the first alphabets of C01, C02, C06, C07 and C08. Per configuration six rounds of <connection ending with unconsumed bytes: behind quit, behind quitq, a cut-short set> + <fresh connection: get, noop> (nothing of one connection reaches the next, whichever runtime thread sets it up).",
    note="Trusted: timing enters only as patience (5 s for positive, 300 ms for negative expectations); ./run builds the real memcrsd binary from /repo's working tree (verification feature off) into /verif/mc/target/memcrsd and every configuration is that binary with its CLI arguments; `mc serve` (the statements of memcrsd's main) is only the fallback when MEMCRSD_BIN is unset, and the evidence records which one ran."),
 })
 
